@@ -55,7 +55,7 @@ SNIPPETS = [
     # --- pandas
     "pd.DataFrame({'a': [1, 2, 3], 'b': [1.5, 2.5, 3.5]}).to_dict('records')", "len(pd.DataFrame())", "list(pd.DataFrame().columns)",
     "pd.DataFrame.from_dict({'p': np.array([3, 1]), 'q': [0.5, 1.5]})['p'].values", "_p1()", "_p2()", "_p3()", "_p4()", "_p5()", "_p6()",
-    "_p7()", "_p8()", "_p9()", "_p10()", "_p11()", "_p12()", "_p13()", "_p14()", "_p15()", "_p16()",
+    "_p7()", "_p8()", "_p9()", "_p10()", "_p11()", "_p12()", "_p13()", "_p14()", "_p15()", "_p16()", "_p17()",
     "(-pd.DataFrame({'a': [1.0, -2.0], 'b': [3.0, 0.5]})).max(axis=1).tolist()", "(-pd.DataFrame({'a': [1.0, -2.0], 'b': [3.0, 0.5]})[['a', 'b']]).min(axis=1).tolist()",
     "(pd.DataFrame({'a': [1.0, 2.0], 'b': [3.0, 5.0]}) * 2).to_dict('records')", "pd.DataFrame({'a': [1.0, 4.0], 'b': [3.0, 0.5]}).max().tolist()",
     "pd.Series([3.0, 1.0, 3.0, np.nan]).rank().tolist()", "pd.Series([2, 2, 2]).rank().tolist()", "pd.Series([5, 1, 5, 1, 3]).rank().tolist()",
@@ -99,6 +99,10 @@ def _l6():
 def _l7():
     a = np.arange(6).reshape(2, 3)
     return [a.T.flatten().tolist(), a.T.flatten(order='K').tolist(), a.flatten(order='F').tolist(), np.ravel(a.T, order='K').tolist()]
+def _p17():
+    df = pd.concat([pd.DataFrame({'a': [1.0, 2.0]}), pd.DataFrame({'a': [3.0, 4.0]})], axis=0)
+    m = np.array([True, False, False, True])
+    return [df.loc[df.index[m]]['a'].tolist(), df[m]['a'].tolist(), list(df.index[m]), df.loc[[1]]['a'].tolist()]
 def _p1():
     df = pd.DataFrame({'a': [1.0, 2.0, 3.0]}); v = df['a'].values
     try:
